@@ -853,3 +853,78 @@ Proof.
   - exact (psutil_strncpy_content src n ws junk Hws Hj).
   - exact (psutil_strncpy_cstr src n ws junk Hws Hj).
 Qed.
+
+(* ================================================================ net_if_addrs() over a fed interface list *)
+From Coq Require Import Permutation.
+
+Lemma convert_exact junk family sa : length junk = NI_MAXHOST -> sa_ok family sa = true ->
+  convert_ipaddr junk sa family = Val (spec_text sa).
+Proof.
+  intros Hj Hok. destruct sa as [s|]; [|reflexivity]. cbn [sa_ok] in Hok. apply andb_true_iff in Hok as [Hf Hs].
+  cbn [convert_ipaddr]. rewrite Hf. cbn [negb]. destruct s as [data|f t|f]; try reflexivity.
+  apply andb_true_iff in Hs as [Hw Hl]. apply Nat.leb_le in Hl.
+  destruct data as [|b rest]; [reflexivity|]. cbn [spec_text].
+  rewrite mac_string_exact; auto. cbn [length] in *. lia.
+Qed.
+
+Lemma c_ifa_row_exact junk i : length junk = NI_MAXHOST -> wf_ifa i = true ->
+  c_ifa_row junk i = Val (spec_ifa_row i).
+Proof.
+  intros Hj Hwf. unfold wf_ifa in Hwf. apply andb_true_iff in Hwf as [Hwf Ha]. apply andb_true_iff in Hwf as [_ Hn].
+  unfold c_ifa_row, spec_ifa_row. destruct (ifa_addr i) as [a|]; [|reflexivity].
+  apply andb_true_iff in Ha as [Ha Hb]. apply andb_true_iff in Ha as [Ha Hm].
+  rewrite (convert_exact junk (sa_family a) (Some a) Hj Ha). cbn [obind].
+  destruct (spec_text (Some a)) as [ad|]; [|reflexivity].
+  rewrite (convert_exact junk (sa_family a) (ifa_mask i) Hj Hm). cbn [obind].
+  rewrite !testbit_odd_div by lia. change (2 ^ 1) with 2. change (2 ^ 4) with 16.
+  destruct (Z.odd (ifa_flags i / 2)).
+  - rewrite (convert_exact junk (sa_family a) (ifa_baddr i) Hj Hb). cbn [obind fst snd]. now rewrite Hn.
+  - destruct (Z.odd (ifa_flags i / 16)).
+    + rewrite (convert_exact junk (sa_family a) (ifa_baddr i) Hj Hb). cbn [obind fst snd]. now rewrite Hn.
+    + cbn [obind fst snd]. now rewrite Hn.
+Qed.
+
+(* every interface list: one row per node that has an address of a known family, with the text of all its
+   sll_halen hardware-address bytes / its numeric IP text, netmask, and broadcast or peer by the flags *)
+Lemma c_net_if_addrs_exact junk l : length junk = NI_MAXHOST -> forallb wf_ifa l = true ->
+  c_net_if_addrs junk l = Val (spec_if_rows l).
+Proof.
+  intros Hj. induction l as [|i l IH]; intros H; [reflexivity|].
+  cbn [forallb] in H. apply andb_true_iff in H as [Hi Hl].
+  cbn [c_net_if_addrs]. rewrite c_ifa_row_exact, IH by assumption. cbn [obind].
+  unfold spec_if_rows. cbn [map filter_some]. destruct (spec_ifa_row i); reflexivity.
+Qed.
+
+Lemma insert_by_fam_perm x l : Permutation (insert_by_fam x l) (x :: l).
+Proof.
+  induction l as [|y l IH]; [reflexivity|]. cbn [insert_by_fam]. destruct (n_fam x <=? n_fam y); [reflexivity|].
+  rewrite IH. apply perm_swap.
+Qed.
+
+Lemma sort_by_fam_perm l : Permutation (sort_by_fam l) l.
+Proof.
+  unfold sort_by_fam. induction l as [|x l IH]; [reflexivity|]. cbn [fold_right].
+  rewrite insert_by_fam_perm. now constructor.
+Qed.
+
+(* the Python layer only reorders the rows and pads the link-layer addresses *)
+Lemma py_net_if_addrs_perm rows : Permutation (py_net_if_addrs rows) (map pad_row rows).
+Proof. unfold py_net_if_addrs. apply Permutation_map, sort_by_fam_perm. Qed.
+
+Lemma pad_row_link r data : n_fam r = AF_PACKET -> n_addr r = spec_mac data ->
+  (1 <= length data)%nat -> wf_bytes data = true -> pad_row r = spec_pad_row r data.
+Proof.
+  intros Hf Ha Hl Hw. unfold pad_row, spec_pad_row. rewrite Hf, Z.eqb_refl, Ha. now rewrite py_mac_pad_exact.
+Qed.
+
+Lemma pad_row_other r : n_fam r <> AF_PACKET -> pad_row r = r.
+Proof. intros H. unfold pad_row. destruct (Z.eqb_spec (n_fam r) AF_PACKET); [contradiction|reflexivity]. Qed.
+
+Definition ifa_ib : ifa :=
+  {| ifa_name := bs "ib0"; ifa_flags := 4163;
+     ifa_addr := Some (SaLL [128;0;0;72;254;128;0;0;0;0;0;0;0;2;201;3;0;16;17;18]); ifa_mask := None;
+     ifa_baddr := Some (SaLL (0 :: 255 :: 255 :: 255 :: repeat 18 16)) |}.
+Example net_if_addrs_example :
+  forallb wf_ifa [ifa_ib] = true /\
+  map n_addr (spec_if_rows [ifa_ib]) = [bs "80:00:00:48:fe:80:00:00:00:00:00:00:00:02:c9:03:00:10:11:12"].
+Proof. vm_compute. auto. Qed.
